@@ -24,7 +24,8 @@ CHECKS = {
          'argument is the chain\'s total rate and the branch threshold recovery/total; actors are drawn through the C16 contracts. fast_SIR: '
          'delegation-site obligations (delay rules draw Exp(tau*w_uv), Exp(gamma*w_u), infinite for rate 0; fast path = binomial + sample + truncated '
          'exponential), handler contracts, queue rule (lemma unit: one event-loop step preserves the global invariant). The step from these '
-         'per-state facts to equality in law is cited (Gillespie direct method, thinning, Sellke/Dijkstra), not machine-checked.',
+         'per-state facts to equality in law is cited (Gillespie direct method, thinning, Sellke/Dijkstra), not machine-checked; a bounded native comparison of the state distribution '
+         'on a 4-node graph with the 81-state master equation backs it up (supplementary).',
     design_ref='DESIGN.md section 5 "C01", 3.1 (queue rule), 3.4',
     note='Trusted: own VC generator; reals for floats; positive weights; distinct/disjoint initial sets; assumed random/numpy/heapq/networkx contracts; '
          'finite-sum lemmas; M-steps (Gillespie direct method, thinning, Sellke) cited; termination not proved.',
